@@ -45,3 +45,9 @@ Proof.
   all: crunchT HI ltac:(pose proof (i_joins _ HI x y v tm); pose proof (i_clock _ HI); pose proof (d_status3 _ y HI); pose proof (d_status3 _ j HI); pose proof (i_jreap _ HI j y); pose proof (i_ready2 _ HI y); pose proof (i_retv _ HI y)).
 Qed.
 
+Lemma pres_cbjs s a s' (HI : Inv s) (H : step s a = Some s') : forall x y, cb (gt s' x) = CbJoinSet y -> before_readjoin (gt s' y) = true.
+Proof.
+  destruct a as [j e]. intros x y. step_inv H.
+  all: crunchT HI ltac:(pose proof (i_cbjs _ HI x y); pose proof (i_cbjs _ HI j y); i2j HI i_lock_b j x y; pose proof (i_cbdet_f _ HI y); pose proof (i_det_rdone _ HI y); pose proof (i_rdone_p _ HI y j); pose proof (i_rdone_p _ HI y x); pose proof (d_status_fin _ y HI); pose proof (i_claim _ HI j y); pose proof (i_claim _ HI x y); pose proof (i_cbfin _ HI y); pose proof (d_fin_cases _ y HI)).
+Qed.
+
